@@ -325,3 +325,15 @@ _extend('C15',
           'for indices/ranges whose stream prefix is too long for a Coq literal (2**31 with index >= ~5000, high > ~600 near exhaustion) the '
           'verdict on the implementation answers comes from the python/numpy reference of the spec, which is validated against Seed.spec '
           'on every case that does reach Coq but is itself trusted there; termination of the real loop is probabilistic')])
+
+
+_extend('C02',
+        ' C02_generate_success_insertion_independent / _same_: if generate succeeds on one build of a model it succeeds on every '
+        'permuted build with the same values and call log (topological check, ObservedCompiler, stochastic check and executor success '
+        'are all insertion-order independent).')
+_extend('C05',
+        ' C05_on_disk_store_is_pool_store (with the C06 refinement, flush, reopen and crash theorems): an on-disk ArrayPool store '
+        'driven by the pool callbacks for batch indices 0, 1, 2, ... behaves as the in-memory store of the pool model - every write is '
+        'an append, held batches are never overwritten, what the loader reads for batch k (also after flush / reopen / pickling) is the '
+        'k-th added batch.',
+        [('the on-disk part relies on C06, memory layouts', 'the on-disk part is linked to the C06 model by C05_on_disk_store_is_pool_store (one store at a time, contiguous batch indices), memory layouts')])
